@@ -2,7 +2,6 @@ package main
 
 import (
 	"encoding/json"
-	"io"
 	"os"
 	"strconv"
 	"strings"
@@ -64,15 +63,7 @@ func (f *fixedReader) Read(p []byte) (int, error) {
 	}
 	copy(p, b)
 	kind, _ := st["errkind"].(string)
-	var err error
-	switch kind {
-	case "EOF":
-		err = io.EOF
-	case "UEOF":
-		err = io.ErrUnexpectedEOF
-	case "custom":
-		err = customErr{}
-	}
+	err := errOfKind(kind)
 	emit(Event{"op": "Read", "asked": len(p), "gave": len(b), "bytes": ints(b), "errkind": kind})
 	return len(b), err
 }
